@@ -56,7 +56,7 @@ func (propC15) Runs(tier string) int {
 	if tier == "thorough" {
 		return 40000
 	}
-	return 1200
+	return 3000
 }
 
 func (propC15) Gen(r *simrt.Rand, idx int, tier string) any {
